@@ -34,6 +34,22 @@ theorem valueUnitsTail_render (nm : Str) (kind : Kind) (info : TyInfo) (dims : O
     obtain ⟨n, x⟩ := p
     simp only [partUnits_unit n x (hu n x hun) v.cm, endOrComment_comment, if_true, Option.map_some]
 
+theorem modTail_of_valueUnitsTail (nm v : Str) (nd : Node)
+    (h : valueUnitsTail nm .mod {} none v = .ok nd) : modTail nm v = .ok nd := by
+  unfold valueUnitsTail at h
+  unfold modTail
+  simp only [bind, Except.bind] at h ⊢
+  cases hp : partValue v with
+  | error e => rw [hp] at h; cases h
+  | ok r =>
+    rw [hp] at h
+    simp only at h ⊢
+    by_cases he : endOrComment (partUnits r.2).2 = true
+    · simp only [he, if_true] at h ⊢
+      exact h
+    · simp only [he, Bool.false_eq_true, if_false] at h
+      cases h
+
 theorem valD_head (v : ValD) (hv : v.Ok) : ∃ c r, v.render = c :: r ∧ isWs c = false := by
   obtain ⟨c, r, h, hc⟩ := lit_head v.lit hv.1
   exact ⟨c, r ++ renderTail v.unit v.cm, by simp [ValD.render, h], hc⟩
@@ -156,7 +172,7 @@ theorem afterName_modify (nm : Str) (a b : Nat) (v : ValD) (hv : v.Ok) :
   have h3 := partEqual_eq (a + 1) b v.render (valD_head v hv)
   unfold afterName
   simp only [h1, Bool.false_eq_true, if_false, h2, h3]
-  exact valueUnitsTail_render nm .mod {} none v hv
+  exact modTail_of_valueUnitsTail nm v.render _ (valueUnitsTail_render nm .mod {} none v hv)
 
 theorem renderDims_after (dims : Option (List DimD)) (hd : DimsOk dims) (after : Str)
     (ha : after = [] ∨ ∃ c r, after = c :: r ∧ (c = ' ' ∨ c = '=' ∨ c = '#')) :
